@@ -81,6 +81,14 @@ Fixpoint read_n {A} (n : nat) (rd : reader A) : reader (list A) :=
   | S k => do* x <- rd; do* r <- read_n k rd; rret (x :: r)
   end.
 
+(** run a reader and also report how many bits it consumed
+    (offset - decoder.number_of_bits in the Python) *)
+Definition with_consumed {A} (m : reader A) : reader (A * nat) :=
+  fun bs => match m bs with
+            | Ok (a, r) => Ok ((a, (length bs - length r)%nat), r)
+            | Err x => Err x
+            end.
+
 (** read_length_determinant_chunks with the per-chunk item loop.  Fuel bounds
     the number of chunks; every chunk consumes at least the 8 determinant
     bits, so [S (length input / 8)] always suffices. *)
@@ -308,7 +316,7 @@ Definition enc_bitstring (named : bool) (sz : size) (bytes : list Z) (nbits : Z)
   else if negb (size_lo sz =? size_hi sz) then
     if size_in_root sz n then Ok (pre ++ to_bits (size_nbits sz) (n - size_lo sz) ++ data)
     else Err EUnmodelled
-  else Ok (pre ++ data).
+  else if n =? size_lo sz then Ok (pre ++ data) else Err EUnmodelled   (* wrong fixed size: rejected by the constraints check *).
 
 Definition read_bitstring (sz : size) : reader value :=
   let mk (bs : bits) := VBits (bits_to_bytes bs) (Z.of_nat (length bs)) in
@@ -331,7 +339,7 @@ Definition enc_octets (sz : size) (bytes : list Z) : result bits :=
     else if negb (size_lo sz =? size_hi sz) then
       if size_in_root sz n then Ok (to_bits (size_nbits sz) (n - size_lo sz) ++ data)
       else Err EUnmodelled
-    else Ok data in
+    else if n =? size_lo sz then Ok data else Err EUnmodelled in
   if size_ext sz then
     if size_in_root sz n then let* r := root in Ok (false :: r)
     else let* l := enc_len_single n in Ok (true :: l ++ data)
@@ -419,7 +427,7 @@ Definition enc_kmstring (k : strkind) (sz : size) (alpha : option (list Z)) (cps
       if negb (size_lo sz =? size_hi sz) then
         if size_in_root sz n then Ok (pre ++ to_bits (size_nbits sz) (n - size_lo sz) ++ chars)
         else Err EUnmodelled
-      else Ok (pre ++ chars)
+      else if n =? size_lo sz then Ok (pre ++ chars) else Err EUnmodelled
   end.
 
 Definition read_kmstring (k : strkind) (sz : size) (alpha : option (list Z)) : reader value :=
@@ -460,6 +468,8 @@ Definition enc_subid (n : Z) : list Z :=
   base128_digits (S (Z.to_nat (Z.log2 n))) (Z.shiftr n 7) ++ [Z.land n 127].
 
 Definition enc_oid_bytes (arcs : list Z) : result (list Z) :=
+  if negb (forallb (fun a => 0 <=? a) arcs) then Err EUnmodelled   (* garbage in the code *)
+  else
   match arcs with
   | a0 :: a1 :: rest => Ok (enc_subid (40 * a0 + a1) ++ flat_map enc_subid rest)
   | _ => Err (EForeign "IndexError")
@@ -699,6 +709,18 @@ Section Composite.
 
     (** MembersType.decode_additions: iterate over the presence bits; [adds]
         are the additions this version knows. *)
+    Definition dec_one_addition (adds : list (addition_of ty)) (open_len : Z)
+      : reader (list (string * value)) :=
+      match adds with
+      | [] => do* _ <- skip_bits (Z.to_nat (8 * open_len)); rret []
+      | (isgroup, ms) :: _ =>
+        if isgroup then dec_root ms
+        else match ms with
+             | [m] => do* v <- decT (m_ty m); rret [(m_name m, v)]
+             | _ => rfail EUnmodelled
+             end
+      end.
+
     Fixpoint dec_adds (pres : list bool) (adds : list (addition_of ty))
       : reader (list (string * value)) :=
       match pres with
@@ -708,33 +730,11 @@ Section Composite.
         if negb p then dec_adds pres' adds'
         else
           do* open_len <- read_len;
-          fun bs0 =>
-            let one : result (list (string * value) * bits) :=
-                match adds with
-                | [] => match skip_bits (Z.to_nat (8 * open_len)) bs0 with
-                        | Ok (_, r) => Ok ([], r) | Err x => Err x end
-                | (isgroup, ms) :: _ =>
-                  if isgroup then dec_root ms bs0
-                  else match ms with
-                       | [m] => match decT (m_ty m) bs0 with
-                                | Ok (v, r) => Ok ([(m_name m, v)], r) | Err x => Err x end
-                       | _ => Err EUnmodelled
-                       end
-                end in
-            match one with
-            | Err x => Err x
-            | Ok (fields, bs1) =>
-              let consumed := (length bs0 - length bs1)%nat in
-              let al := (consumed mod 8)%nat in
-              match (if (al =? 0)%nat then Ok (tt, bs1) else skip_bits (8 - al) bs1) with
-              | Err x => Err x
-              | Ok (_, bs2) =>
-                match dec_adds pres' adds' bs2 with
-                | Ok (more, bs3) => Ok (fields ++ more, bs3)
-                | Err x => Err x
-                end
-              end
-            end
+          do* (fields, consumed) <- with_consumed (dec_one_addition adds open_len);
+          do* _ <- (let al := (consumed mod 8)%nat in
+                    if (al =? 0)%nat then rret tt else skip_bits (8 - al));
+          do* more <- dec_adds pres' adds';
+          rret (fields ++ more)
       end.
 
     Definition dec_additions (adds : list (addition_of ty)) : reader (list (string * value)) :=
@@ -765,7 +765,7 @@ Section Composite.
               if negb (size_lo sz =? size_hi sz) then
                 if size_in_root sz n then Ok (to_bits (size_nbits sz) (n - size_lo sz) ++ body)
                 else Err EUnmodelled
-              else Ok body in
+              else if n =? size_lo sz then Ok body else Err EUnmodelled in
         if size_ext sz then
           if size_in_root sz n then let* r := root in Ok (false :: r)
           else
@@ -854,17 +854,9 @@ Section Composite.
           match nth_z adds i with
           | None => do* _ <- skip_bits nbits; rret VUnknownChoice
           | Some m =>
-            fun bs0 =>
-              match decT (m_ty m) bs0 with
-              | Err x => Err x
-              | Ok (v, bs1) =>
-                let consumed := (length bs0 - length bs1)%nat in
-                if (nbits <? consumed)%nat then Err EUnmodelled   (* skip_bits(negative) rewinds *)
-                else match skip_bits (nbits - consumed) bs1 with
-                     | Ok (_, bs2) => Ok (VChoice (m_name m) v, bs2)
-                     | Err x => Err x
-                     end
-              end
+            do* (v, consumed) <- with_consumed (decT (m_ty m));
+            if (nbits <? consumed)%nat then rfail EUnmodelled   (* skip_bits(negative) rewinds *)
+            else do* _ <- skip_bits (nbits - consumed); rret (VChoice (m_name m) v)
           end
       end.
   End Members.
